@@ -92,7 +92,11 @@ def run(ck, ctx):
 
     # ---------------------------------------------------------------- R10.2 no hidden inputs
     def r102():
-        bad = [e for e in kernel_effects if e.kind in ("rng", "clock-env", "io", "io-write", "print")]
+        bad = [e for e in kernel_effects if e.kind in ("rng", "clock-env", "io", "io-write")]
+        prints = [e for e in kernel_effects if e.kind == "print"]
+        if prints:
+            ck.note(f"{len(prints)} print call(s) in the closure (diagnostic output only: no value flows back into a "
+                    "result, so the schedule cannot change what is returned)")
         for e in bad:
             f = e.funcs()[-1] if e.funcs() else "?"
             ck.ob("R10.2", f"kernel closure has no hidden input/output [{e.kind} at {e.where()}]", False, e.node, f,
